@@ -74,7 +74,8 @@ def init_language_server(config: Path, generate_on_save: bool, generate_base_pat
             refs = e.type_refs
             file_imports = e.file_imports
             defs = e.type_decls
-            ast = e.ast
+            # a declaration the parser could not build is `None` in the recovered tree
+            ast = [type_def for type_def in e.ast if type_def is not None]
         except ConfigurationException as e:
             ls.show_message_log(str(e), MessageType.Error)
             ls.show_message(f"PyDjinni: {e}", MessageType.Error)
